@@ -38,6 +38,7 @@ func (p c10) Run(c *core.Ctx) {
 	var plan map[string]world.SubPlan
 	var holders []any
 	family := "pop"
+	var providers []any // providers outside the palette (lean / rich / zero-size), the same objects in every run
 	var dups []any     // duplicate-name components (registered in permuted positions)
 	type depSpec struct {
 		class, ord int
@@ -104,7 +105,8 @@ func (p c10) Run(c *core.Ctx) {
 			hm.POptional = 0.85
 			holders = append(holders, LiteralHolder(c.Rng, h, 1+c.Rng.Intn(3), g.Sc, hm))
 		}
-		repairUnsatisfiable(c, g, holders, 0.9)
+		providers = LeanProviders(c.Rng)
+		repairUnsatisfiable(c, g, holders, 0.9, providers...)
 	} else {
 		family = "wrapped-cycle"
 		sc := RandomGraph(c.Rng, GraphOpts{MinN: 2, MaxN: 7, Types: plainAB, PCycle: 1, Chords: 1, OnlyIface: true, PUnnamed: 0.3})
@@ -133,7 +135,7 @@ func (p c10) Run(c *core.Ctx) {
 		for _, h := range holders {
 			resetHolder(h)
 		}
-		opt := world.Options{Extra: append([]any{}, holders...)}
+		opt := world.Options{Extra: append(append([]any{}, holders...), providers...)}
 		var depPPs []any
 		for _, d := range depSpecs {
 			depPPs = append(depPPs, world.NewDepPP(d.class, d.name, d.ord))
